@@ -421,6 +421,7 @@ func BeforeLock(mu any, kind int) {
 	if t == nil {
 		return
 	}
+	waited := false
 	for {
 		free := false
 		if kind == LockR {
@@ -443,11 +444,19 @@ func BeforeLock(mu any, kind int) {
 			}
 		}
 		if free {
+			if waited {
+				s.progress()
+			}
 			return
 		}
+		waited = true
 		s.park(t, stLockWait)
 	}
 }
+
+//go:norace
+//go:noinline
+func (s *Sim) progress() { s.epoch++ }
 
 // OnceDo replaces o.Do(f) for sync.Once values.
 func OnceDo(o *sync.Once, f func()) {
@@ -682,7 +691,13 @@ func (s *Sim) schedule() {
 			return
 		}
 		res.Steps++
-		s.epoch++
+		// The epoch counts releases of tasks that can make real progress. A
+		// lock-waiting task that is released only re-probes; if that counted,
+		// two waiters would keep each other "eligible" for ever while the
+		// (lower-priority) lock holder never runs.
+		if t.state != stLockWait {
+			s.epoch++
+		}
 		t.failEpoch = s.epoch
 		if s.current != nil && s.current != t {
 			res.Switches++
